@@ -90,7 +90,18 @@ CATALOGUE = {
                        _Rel("lower-folded", lambda src: src.lower().translate(accent_map)), True),
     "substitution": (lambda: RT(r"\S+") | analysis.SubstitutionFilter("-", ""),
                      _Rel("hyphens-removed", lambda src: src.replace("-", "")), True),
-    "delimited": (lambda: RT(r"\S+") | analysis.DelimitedAttributeFilter(), "none", True),
+    # DelimitedAttributeFilter cuts the token's text and its character range at the delimiter: what is
+    # left is exactly the source text before it, whatever the delimiter's length
+    "delimited": (lambda: RT(r"\S+") | analysis.DelimitedAttributeFilter(), "exact", True),
+    "delimited-tag": (lambda: RT(r"\S+") | analysis.DelimitedAttributeFilter(delimiter="::", attribute="tag",
+                                                                            default=u"", type=str) | LOW(),
+                      "lower", True),
+    "delimited-arrow": (lambda: RT(r"[^\s,]+") | analysis.DelimitedAttributeFilter(delimiter="-->", attribute="target",
+                                                                                 default=None, type=str),
+                        "exact", True),
+    "delimited-first": (lambda: RT(r"\S+") | analysis.DelimitedAttributeFilter(delimiter="/", attribute="rest",
+                                                                             default=u"", type=str) | LOW(),
+                        "lower", True),
     "biword": (lambda: RT() | LOW() | analysis.BiWordFilter(), "none", False),
     "shingle2": (lambda: RT() | LOW() | analysis.ShingleFilter(2), "none", False),
     "shingle3": (lambda: RT() | LOW() | analysis.ShingleFilter(3), "none", False),
@@ -190,6 +201,8 @@ POOL = [
     "running", "rendering", "geese", "football", "database", "bigtime", "PowerShot", "SD500", "wi2fi",
     # boost syntax for DelimitedAttributeFilter
     "render^2", "file^0.5", "x^", "^3",
+    # attribute syntax with delimiters of two and three characters
+    "fox::noun", "Quick::adj", "a::b::c", "::x", "y::", "go-->there", "A-->B-->C", "lazy::", "dog:::n",
 ]
 SEPS = [" ", " ", " ", "  ", "\t", "\n", ", ", ",", ". ", "-", "/", " - ", "　", ";",
         # runs of two and more break characters
@@ -318,7 +331,14 @@ MODELLED = {
     "ngramtokenizer": ("(ngram 3 3)", []),
     "ngram": ("(ngram 2 4)", ["lowercase"]),
     "biword": ("(regex default)", ["lowercase", "(biword (45))"]),
+    # DelimitedAttributeFilter: the delimiter is read from the real filter
+    "delimited-tag": ("(regex nonspace)", [lambda rs: _delim_sexp("delimited-tag"), "lowercase"]),
+    "delimited-first": ("(regex nonspace)", [lambda rs: _delim_sexp("delimited-first"), "lowercase"]),
 }
+
+
+def _delim_sexp(name):
+    return "(delimited %s)" % _s_str(_flt(name, analysis.DelimitedAttributeFilter).delim)
 
 
 def model_request(name, text, mode, removestops):
